@@ -23,6 +23,10 @@ pub enum Fault {
     None,
     ExistingLonger,
     MissingDir,
+    /// `<missing directory>/../file`: the operating system resolves every component, so this path does not exist either
+    MissingDirDotDot,
+    /// `<symlink to real/deep>/../file` names real/file (the link is followed before `..` is applied), not ./file
+    SymlinkDirDotDot,
     IsDir,
     ParentIsFile,
     NameTooLong,
@@ -92,6 +96,8 @@ pub fn from_json(v: &Value) -> Option<Case> {
             "None" => Fault::None,
             "ExistingLonger" => Fault::ExistingLonger,
             "MissingDir" => Fault::MissingDir,
+            "MissingDirDotDot" => Fault::MissingDirDotDot,
+            "SymlinkDirDotDot" => Fault::SymlinkDirDotDot,
             "IsDir" => Fault::IsDir,
             "ParentIsFile" => Fault::ParentIsFile,
             "NameTooLong" => Fault::NameTooLong,
@@ -325,6 +331,16 @@ pub fn check(c: &Case, obs: &mut Obs) -> Result<(), Fail> {
             (good.clone(), false)
         }
         Fault::MissingDir => (format!("{}/no-such-dir-{}/out.{}", dir, uniq, ext), true),
+        Fault::MissingDirDotDot => (format!("{}/no-such-dir-{}/../dotdot-{}.{}", dir, uniq, uniq, ext), true),
+        Fault::SymlinkDirDotDot => {
+            let real = format!("{}/real-{}", dir, uniq);
+            let _ = std::fs::create_dir_all(format!("{}/deep", real));
+            let l = format!("{}/lnk-{}", dir, uniq);
+            let _ = std::fs::remove_file(&l);
+            let _ = std::os::unix::fs::symlink(format!("{}/deep", real), &l);
+            let _ = std::fs::remove_file(format!("{}/via-link-{}.{}", real, uniq, ext));
+            (format!("{}/../via-link-{}.{}", l, uniq, ext), false)
+        }
         Fault::IsDir => {
             let d = format!("{}/dir-{}", dir, uniq);
             let _ = std::fs::create_dir_all(&d);
@@ -546,6 +562,8 @@ fn fault_strategy() -> BoxedStrategy<Fault> {
         2 => Just(Fault::None),
         1 => Just(Fault::ExistingLonger),
         1 => Just(Fault::MissingDir),
+        1 => Just(Fault::MissingDirDotDot),
+        1 => Just(Fault::SymlinkDirDotDot),
         1 => Just(Fault::IsDir),
         1 => Just(Fault::ParentIsFile),
         1 => Just(Fault::NameTooLong),
@@ -584,7 +602,7 @@ pub fn run(e: &'static Engine) {
     e.assume("RLIMIT_FSIZE with SIGXFSZ ignored makes the kernel return a partial write followed by EFBIG at exactly L");
     crate::engine::run_regress(e, &|c, o| replay(e, c, o));
     let all_faults = vec![
-        Fault::None, Fault::ExistingLonger, Fault::MissingDir, Fault::IsDir, Fault::ParentIsFile, Fault::NameTooLong, Fault::EmbeddedNul,
+        Fault::None, Fault::ExistingLonger, Fault::MissingDir, Fault::MissingDirDotDot, Fault::SymlinkDirDotDot, Fault::IsDir, Fault::ParentIsFile, Fault::NameTooLong, Fault::EmbeddedNul,
         Fault::EmptyPath, Fault::ReadOnlyProc, Fault::ReadOnlySys, Fault::DevFull, Fault::ReadOnlyDir, Fault::ReadOnlyFile, Fault::DanglingSymlink, Fault::SymlinkLoop, Fault::SymlinkToLonger, Fault::ExistingSameLengthTail, Fault::ExistingSameLengthHead, Fault::ExistingPrefixEqual, Fault::ShortWrite(0), Fault::ShortWrite(1), Fault::ShortWrite(500), Fault::ShortWrite(999),
     ];
     let mut jobs: Vec<Job> = Vec::new();
